@@ -46,6 +46,13 @@ theorem node_params_eq_export (hdw : DwAligned p ms) (n : ℕ) (hs : (getOp p n)
   | lin s c a => simp only; ring
   | _ => simp_all [Op.searchable]
 
+/-- a layer invoked again has, at the new call site, as many alive outputs and as many alive input
+features as where it is defined (what tying the call sites and their inputs to one masker
+guarantees on supported programs, see `reuseAligned_of_supported`) -/
+def ReuseAligned : Prop :=
+  ∀ n s o ls c a, getOp p n = .reuse s o ls c a →
+    countT (ms.getD n []) = countT (ms.getD o []) ∧ countT (inMask p ms n) = countT (inMask p ms o)
+
 theorem node_ops_eq_export (hdw : DwAligned p ms) (n : ℕ) (hs : (getOp p n).searchable = true) :
     nodeOps p ms false n = exportedNodeOps p ms n := by
   unfold nodeOps exportedNodeOps
@@ -70,17 +77,32 @@ theorem discrete_params_eq_export_params (hdw : DwAligned p ms) :
   · obtain ⟨h1, h2⟩ := node_params_not_searchable p ms n hs; rw [h1, h2]
   · exact node_params_eq_export p ms hdw n hs
 
-/-- … and the discrete `ops` cost is the operation count of the exported network -/
-theorem discrete_ops_eq_export_ops (hdw : DwAligned p ms) :
+/-- a call site of a layer invoked again is charged (per-invocation metric) what the *one*
+exported layer costs at that call site -/
+theorem reuse_ops_eq_export (hre : ReuseAligned p ms) (n s o ls c : ℕ) (a : LAttr)
+    (hop : getOp p n = .reuse s o ls c a) : nodeOps p ms false n = exportedNodeOps p ms n := by
+  obtain ⟨h1, h2⟩ := hre n s o ls c a hop
+  unfold nodeOps exportedNodeOps siteParams planOf
+  rw [hop]
+  simp only [keptIdx_length]
+  rw [h1, h2]
+  cases getOp p o <;> simp only <;> ring
+
+/-- … and the discrete `ops` cost is the operation count of the exported network (every call site
+of a layer invoked more than once charged with its own output size) -/
+theorem discrete_ops_eq_export_ops (hdw : DwAligned p ms) (hre : ReuseAligned p ms) :
     costOps p ms false = exportedOps p ms := by
   unfold costOps exportedOps
   congr 1
   apply List.map_congr_left
   intro n _
   cases hs : (getOp p n).searchable
-  · unfold nodeOps exportedNodeOps
-    obtain ⟨h1, h2⟩ := node_params_not_searchable p ms n hs
-    cases hop : getOp p n <;> simp_all [Op.searchable]
+  · cases hop : getOp p n with
+    | reuse s o ls c a => exact reuse_ops_eq_export p ms hre n s o ls c a hop
+    | _ =>
+      unfold nodeOps exportedNodeOps
+      obtain ⟨h1, h2⟩ := node_params_not_searchable p ms n hs
+      simp_all [Op.searchable]
   · exact node_ops_eq_export p ms hdw n hs
 
 /-- the hypothesis of the two theorems holds for the masks the features calculators report on
@@ -93,6 +115,26 @@ theorem dwAligned_of_supported (l : List ℕ) (α : ℕ → List Rat) (hl : comp
   · have hop' : p[n] = .dw s a := by rw [← getOp_eq p n hn]; exact hop
     have := C09.depthwise_follows_input p l α hl hws hsup n s a hn hop'
     unfold inMask; rw [hop]; simp only [Op.inputs, List.headD_cons]; rw [this]
+  · unfold getOp at hop
+    rw [List.getD_eq_getElem?_getD, List.getElem?_eq_none (by omega)] at hop
+    cases hop
+
+/-- … and so does the hypothesis on layers invoked again -/
+theorem reuseAligned_of_supported (l : List ℕ) (α : ℕ → List Rat) (hl : computeLabels p = some l)
+    (hws : wellShaped p = true) (hsup : supported p = true) :
+    ReuseAligned p (aliveMasks p l α) := by
+  intro n s o ls c a hop
+  by_cases hn : n < p.length
+  · have hop' : p[n] = .reuse s o ls c a := by rw [← getOp_eq p n hn]; exact hop
+    obtain ⟨h1, h2⟩ := C09.reused_layer_sites_tied p l α hl hws hsup n s o ls c a hn hop'
+    obtain ⟨-, -, hkind⟩ := reuse_wf p hws n s o ls c a hn hop'
+    have hino : inMask p (aliveMasks p l α) o = (aliveMasks p l α).getD ls [] := by
+      unfold inMask
+      rcases hkind with ⟨a', hg⟩ | ⟨a', hg⟩ <;> rw [hg] <;> rfl
+    have hinn : inMask p (aliveMasks p l α) n = (aliveMasks p l α).getD s [] := by
+      unfold inMask; rw [hop]; rfl
+    rw [hino, hinn, h1, h2]
+    exact ⟨rfl, rfl⟩
   · unfold getOp at hop
     rw [List.getD_eq_getElem?_getD, List.getElem?_eq_none (by omega)] at hop
     cases hop
